@@ -84,7 +84,7 @@ def strace_segments(path):
         if strs and strs[0].startswith("/@@E/"):
             cur = None
             continue
-        if cur is None or pid != tid or ret in ("?",) or int(ret) < 0 or not strs:
+        if cur is None or pid != tid or ret in ("?",) or int(ret) < 0 or not strs or sc in ("getcwd", "execve"):
             continue
         first = args.split(",")[0].strip()
         base = cwd
@@ -110,7 +110,7 @@ def strace_segments(path):
             if sc in ("open", "openat", "openat2", "creat"):
                 fds[ret] = full
             if not probe:
-                segs[cur].append({"sc": sc, "path": full, "fol": fol})
+                segs[cur].append({"sc": sc, "path": full, "fol": fol, "cr": "O_CREAT" in args or sc == "creat"})
     return segs
 
 
@@ -188,7 +188,7 @@ def sys_records(cases, segs, selected):
                 continue
             if s["path"].startswith("/@@"):
                 continue
-            sysl.append({"sc": s["sc"], "abs": True, "c": comps(s["path"]), "fol": s["fol"]})
+            sysl.append({"sc": s["sc"], "abs": True, "c": comps(s["path"]), "fol": s["fol"], "cr": s["cr"]})
         if sysl:
             per.setdefault(ci, []).append({"fn": base, "sys": sysl})
     recs = [{"m": "sys", "id": cases[ci]["id"], "nodes": cases[ci]["nodes"], "sp": cases[ci]["sp"], "calls": calls}
@@ -280,7 +280,9 @@ def run():
                 raise vf.NoVerdict("negative control: the as-is SandboxJoin model did not violate Safe (%s %s)" % (rn.violated, rn.error))
             chk.add_tlc(rn, "negative control (Impl=asis) violates Safe", count_states=False)
         # 2. cases
+        t0 = time.time()
         cases = gen_cases(chk, sd, "SandboxPath_GenT.cfg" if thorough else "SandboxPath_Gen.cfg")
+        vf.log("generated %d cases in %.0fs" % (len(cases), time.time() - t0))
         bycls = {}
         for c in cases:
             bycls.setdefault(c["cls"], []).append(c)
@@ -288,7 +290,9 @@ def run():
             raise vf.NoVerdict("generated cases do not cover every class: %s" % sorted(bycls))
         # 3. harness binary
         ov = vf.make_overlay(sd, HARNESS)
+        t0 = time.time()
         binp = vf.go_test_compile(ov, "./" + PKG + "/", os.path.join(sd, "sandbox.test"))
+        vf.log("harness built in %.0fs" % (time.time() - t0))
         # 4. stage A: whole inventory x probe cases, under strace
         nprobe = 10 if thorough else 4
         probe = []
@@ -327,11 +331,15 @@ def run():
             sysB, odd2 = sys_records(sl, segsS, invS["selected"])
             odd += odd2
         # 6. calibration: core functions without sandbox
-        cal = rng.sample(cases, min(len(cases), 3000 if thorough else 500))
+        cal = rng.sample(cases, min(len(cases), 3000 if thorough else 300))
+        t0 = time.time()
         outsP, _ = run_sharded(sd, binp, cal, "plain", CORE, "P", 2)
+        vf.log("calibration: %d cases in %.0fs" % (len(cal), time.time() - t0))
         # 7. the contract
         recs = records(probe, outsA, "sand") + records(cases, outsB, "sand") + sysA + sysB + records(cal, outsP, "plain")
+        t0 = time.time()
         rep = judge(chk, sd, recs, "contract (sandboxed effects, strace paths, calibration)")
+        vf.log("contract: %d records judged in %.0fs" % (len(recs), time.time() - t0))
         cnt = rep["cnt"]
         if rep["n"] != len(recs) or cnt["skipped"]:
             raise vf.NoVerdict("contract run judged %s of %d records, %s outside the spec's domain" % (rep["n"], len(recs), cnt["skipped"]))
@@ -392,7 +400,12 @@ def run():
             chk.sample({"kind": "case", "class": c["cls"], "spelling": sp_text(c["sp"]), "tree": tree_text(c["nodes"]),
                         "observed": outsB[c["id"]]["groups"][:4]})
         if dev:
+            chk.cov["states"] = max(chk.cov["states"], 1)
+            json.dump([{"key": k, "what": w, "replay": r_} for k, w, r_ in chk.cands], open("/var/tmp/c26dev/cands.json", "w"), indent=1)
             for k, w, _r in chk.cands:
                 print("DEV candidate:", k, w[:300])
-            raise vf.NoVerdict("VERIF_C26_DEV run (model-level stage skipped)")
+            rc = chk.finish()
+            if rc == 0:
+                raise vf.NoVerdict("VERIF_C26_DEV run (model-level stage skipped): nothing new found, but such a run never passes")
+            return rc
     return chk.finish()
